@@ -181,6 +181,67 @@ func (p *flowProto) genTrunc(r *rand.Rand, n int, w *bufio.Writer) {
 			fmt.Fprintf(w, "%s %s %s\ttrunc\n", p.name, hx(addr), hx(full[:k]))
 			emitted++
 		}
+		// a self-contained message: M2 announces a template of its own (an id no exporter has used) between data sets of
+		// known templates and uses it afterwards. A data set carrying THAT id in front of the announcing set is a set with an
+		// unknown template id at the point where it is met: it must be skipped by its length and the sets after the
+		// announcement decoded as if it were absent (a lookup result remembered across the sets of one message shows here;
+		// seed C09-f). Decoding M2 changes the cache, so every variant comes from an exporter of its own, which first
+		// announces the known templates.
+		{
+			t2 := p.genTpl(r, 500+r.Intn(200), r.Intn(3) == 0, true)
+			dataSet := func(t tpl) []byte {
+				var body []byte
+				for j, nr := 0, 1+r.Intn(3); j < nr; j++ {
+					rb, _ := p.genRecord(r, t)
+					body = append(body, rb...)
+				}
+				body = append(body, make([]byte, r.Intn(min(minRecLen(p, t), 8)))...)
+				return cat(be16(t.id), be16(4+len(body)), body)
+			}
+			var sets2 [][]byte
+			for i, k := 0, r.Intn(3); i < k; i++ {
+				sets2 = append(sets2, dataSet(tpls[r.Intn(len(tpls))]))
+			}
+			annAt := len(sets2)
+			sid := p.tplSet
+			if t2.opts {
+				sid = p.optSet
+			}
+			sets2 = append(sets2, cat(be16(sid), be16(4+len(p.encTplRec(t2))), p.encTplRec(t2)))
+			for i, k := 0, 1+r.Intn(3); i < k; i++ {
+				if r.Intn(4) == 0 {
+					sets2 = append(sets2, dataSet(tpls[r.Intn(len(tpls))]))
+				}
+				sets2 = append(sets2, dataSet(t2))
+			}
+			hdr2, _ := p.header(r, ver)
+			freshN := 0
+			fresh := func() []byte {
+				freshN++
+				return []byte{10, 77, byte(freshN >> 8), byte(freshN)}
+			}
+			emit := func(a []byte, skip int, u []byte, tag string) {
+				m := append([]byte{}, hdr2...)
+				for i, s2 := range sets2 {
+					if i == skip {
+						m = append(m, u...)
+					}
+					m = append(m, s2...)
+				}
+				fmt.Fprintf(w, "%s %s %s\tannounce\n", p.name, hx(a), hx(ann))
+				fmt.Fprintf(w, "%s %s %s\t%s\n", p.name, hx(a), hx(m), tag)
+				emitted += 2
+			}
+			emit(fresh(), -1, nil, "full")
+			for pos := 0; pos <= annAt; pos++ {
+				body := rndBytes(r, r.Intn(30))
+				if r.Intn(2) == 0 {
+					// … or octets that are a record of the template announced later
+					body, _ = p.genRecord(r, t2)
+				}
+				emit(fresh(), pos, cat(be16(t2.id), be16(4+len(body)), body), "ins")
+			}
+		}
 	}
 }
 
